@@ -14,3 +14,9 @@ package ipc
 //@   guarded_by lock: maxRcvSize owner group chown mode chmod closed
 //@   immutable: addr proto hs closeQ
 //@   racy: listener because set under the lock by Listen before the accept goroutine starts and read by that goroutine without it (ordered by goroutine creation)
+//@
+//@ func (*dialer).Dial
+//@   before call:SetOption#1 assert arg0 == mangos.OptionMaxRecvSize && arg1 == iface(d.maxRcvSize) && held(d.lock)
+//@
+//@ func (*listener).Listen$1
+//@   before call:SetOption#1 assert arg0 == mangos.OptionMaxRecvSize && arg1 == iface(l.maxRcvSize) && held(l.lock)
